@@ -16,6 +16,6 @@ CONSTANTS
   Conns = {1, 2, 3}
   DgSocks = {"a", "b"}
   MaxDg = 2
-SPECIFICATION SpecListen
-VIEW mcview
+SPECIFICATION FairListen
 INVARIANTS TypeOk AcceptOnce
+PROPERTIES AllAccepted
